@@ -13,7 +13,8 @@ def compile_with_sites(E):
     if not h:
         return None, []
     out = []
-    for n, st in walk_arms(h["body"]):
+    import sem
+    for n, st in sem.sem_walk(E, h):
         if n.get("k") in ("Call", "MethodCall"):
             c = norm(n.get("callee", ""))
             if c in ("ast::index_expr::IndexExpr::compile_with", "ast::index_expr::IndexExpr::compile_vec_with",
